@@ -114,7 +114,7 @@ def _one(args):
     obs = []
 
     def guarded(o, rng, _c=call):
-        signal.alarm(20)
+        signal.alarm(180)
         try:
             return _c(o, rng)
         finally:
@@ -127,7 +127,7 @@ def _one(args):
         outs = []
         for rep in range(2):
             try:
-                signal.alarm(30)
+                signal.alarm(180)
                 ag = call(obj, np.random.default_rng(seed + 1000 * seed0))
                 signal.alarm(0)
                 outs.append(ag_project(ag))
